@@ -269,9 +269,9 @@ def is_text_class(name):
     return name.startswith(TEXT_MODULES)
 
 
-def thorough_positions(length, rng, limit=12):
-    """every position of a vector of up to `limit` bytes; of a longer one the first 6 (headers, lengths, types) and
-    6 more drawn with the seed, so that repeated thorough runs with different VERIF_SEED values cover the rest"""
+def thorough_positions(length, rng, limit=8):
+    """every position of a vector of up to `limit` bytes; of a longer one the first 4 (headers, lengths, types) and
+    4 more drawn with the seed, so that repeated thorough runs with different VERIF_SEED values cover the rest"""
     if length <= limit:
         return list(range(length))
     head = limit // 2
